@@ -193,6 +193,11 @@ func (r *Report) Finish() int {
 			lines = append(lines, fmt.Sprintf("VIOLATION property=%s replay=%s", r.Prop, replay))
 		}
 	}
+	if os.Getenv("VERIF_LIST") != "" {
+		for _, o := range r.Obs {
+			fmt.Printf("OBL %s %s | %s | %s | %v\n", r.Prop, o.Rule, o.Construct, o.Pos, o.Status)
+		}
+	}
 	if !r.Quiet {
 		fmt.Printf("== %s (%s): %d obligations, %d discharged, %d violations, %d known findings, %d distinct constructs\n",
 			r.Prop, r.Tier, len(r.Obs), discharged, violations, knownHits, len(distinct))
